@@ -158,3 +158,6 @@ func c06loadInto(g *Gen, i int, prog []GenPkg, u *types.Universe) error {
 	}
 	return nil
 }
+
+// c11dirOf: where the loader says the package lives on disk
+func c11dirOf(p *types.Package) string { return p.SourcePath }
